@@ -3,7 +3,7 @@
    those repairs (two refutations kept as the record of the repaired defects); `repaired` = the code
    with the proposed escaping of string constants. *)
 From Coq Require Import ZArith List Bool String Permutation Sorted.
-From PAFC10 Require Import Model Proofs Proofs2 Proofs3 Proofs4 Proofs5 Witness.
+From PAFC10 Require Import Model Proofs Proofs2 Proofs3 Proofs4 Proofs5 Proofs6 Witness.
 Import ListNotations.
 
 (* ===== selection ===== *)
@@ -87,6 +87,13 @@ Theorem C10_total_refuted :
   (exists p, wf_pred p = true /\ compile current p = Err ETypeError) /\
   (exists p, wf_pred p = true /\ compile current p = Err EAssertion).
 Proof. exact total_refuted. Qed.
+
+(* ... and those are the only ways: a well-formed predicate fails to compile only by negating a
+   junction (TypeError) or through a merge that needs three tables (AssertionError) *)
+Theorem C10_errors_characterised : forall vr p e,
+  wf_pred p = true -> compile vr p = Err e ->
+  (e = ETypeError /\ has_not_junction vr p = true) \/ e = EAssertion.
+Proof. exact compile_err. Qed.
 
 Theorem C10_total_partial : forall vr p,
   wf_pred p = true -> junction_free p = true -> exists q, compile vr p = Ok q /\ invertible q.
